@@ -1639,6 +1639,8 @@ class TeX(object):
             elif t == '`':
                 for t in self.itertokens():
                     num = number(sign * ord(t))
+                    if optspace:
+                        self.readOneOptionalSpace()
                     break
             break
         ParameterCommand.enable()
